@@ -1566,6 +1566,7 @@ class Exec:
                 ev.setdefault("mut_pre", {})[i] = pre
                 post = Opq(self.uf(f"post{i}:" + name + "/" + str(len(vals)), *([Val] * len(vals) + [Val]))(*vals),
                            strip_ref(ty))
+                ev.setdefault("mut_post", {})[i] = post
                 self.write_ref(st, a, post)
         if record:
             st.events.append(ev)
@@ -2142,7 +2143,30 @@ def m_unwrap_or_default_bool(ex, st, fr, callee, args, argtys, dty):
     return z3.And(d == good, payload)
 
 
+def m_closure_call(ex, st, fr, callee, args, argtys, dty):
+    """<{closure} as Fn*<(A, B, ..)>>::call*(closure, (a, b, ..)): run the closure body on the tuple's components."""
+    f, tup = args
+    try:
+        fv = _deref_val(ex, st, f)
+    except Unsupported:
+        fv = None
+    tv = _deref_val(ex, st, tup)
+    if not isinstance(tv, Agg):
+        return NotImplemented
+    if not (isinstance(fv, Agg) and fv.ty == "closure"):
+        # a closure without captures is zero-sized and never assigned: its type alone names the body
+        m = re.match(r"^<(\{closure@[^}]*\}) as Fn", callee)
+        if fv is not None and not isinstance(fv, Opq) or not m:
+            return NotImplemented
+        fv = Agg("closure", m.group(1), [])
+    inl = closure_call(ex, st, fv, list(tv.fields))
+    if inl is None:
+        return NotImplemented
+    return inl
+
+
 STD_MODELS = [
+    (r"^<\{closure@[^}]*\} as Fn(Mut|Once)?<.*>>::call(_mut|_once)?$", m_closure_call),
     (r"^<bool as (Ord|PartialOrd)>::cmp$", m_bool_cmp),
     (r"^(Option|Result)::<.*>::unwrap_or_default$", m_unwrap_or_default_bool),
     (r"^(HashSet|Vec|BTreeSet)::<.*>::iter$|^core::slice::<impl \[.*\]>::iter$", m_coll_iter),
